@@ -81,6 +81,14 @@ def build_spec(pos, kind):
         import copy
         schemas["Holder"] = {"type": "object", "properties": {"t": copy.deepcopy(schemas["Tgt"])}}
         holder_op["responses"] = ok200(ref("Holder"))
+    elif pos in ("inline_twin_null", "inline_twin_null_mapval"):
+        # the references of a named union written inline next to a null variant: the member is typed by the named union
+        import copy
+        u = copy.deepcopy(schemas["Tgt"])
+        kw = "oneOf" if "oneOf" in u else "anyOf"
+        u[kw] = u[kw] + [{"type": "null"}]
+        schemas["Holder"] = {"type": "object", "properties": {"t": u if pos == "inline_twin_null" else {"type": "object", "additionalProperties": u}}}
+        holder_op["responses"] = ok200(ref("Holder"))
     elif pos == "discmap":
         schemas["Holder"] = {"type": "object", "required": ["kind"], "properties": {"kind": {"type": "string"}},
                              "discriminator": {"propertyName": "kind", "mapping": {"x": "#/components/schemas/Tgt"}}}
@@ -133,7 +141,9 @@ def build_spec(pos, kind):
     comps.setdefault("parameters", {})["OtherShared"] = {"name": "osh", "in": "query", "schema": ref("OtherSharedKind")}
     schemas["OtherSharedKind"] = {"type": "string", "enum": ["s1", "s2"]}
     paths = {path: item, "/other": {"parameters": [{"name": "oq", "in": "query", "schema": ref("OtherParam")}, {"$ref": "#/components/parameters/OtherShared"}],
-                                    "get": {"operationId": "other_op", "responses": ok200(ref("Tgt") if pos == "inline_twin" else ref("Other"))}}}
+                                    "get": {"operationId": "other_op", "responses": ok200(ref("Tgt") if pos == "inline_twin" else ref("Other"))}},
+             # an operation that refers to no schema at all: selecting it alone leaves the expanded set empty
+             "/ping": {"get": {"operationId": "ping", "responses": {"204": {"description": "pong"}}}}}
     return {"openapi": "3.1.0", "info": {"title": "t", "version": "1"}, "paths": paths, "components": comps}
 
 
@@ -142,6 +152,8 @@ def applicable(pos, kind):
         return kind in ("object", "allofchild", "discbase")
     if pos == "discmap":
         return kind == "object"
+    if pos in ("inline_twin_null", "inline_twin_null_mapval"):
+        return kind in ("union", "anyunion")
     if pos in ("pathparam",):
         return kind in SCALAR
     if pos in ("header",):
@@ -151,8 +163,9 @@ def applicable(pos, kind):
     return True
 
 
-SELECTIONS = [("default", [], ["get_holder", "other_op"]), ("all", ["--all-schemas"], None),
-              ("only", ["--only", "get_holder"], ["get_holder"]), ("exclude", ["--exclude", "other_op"], ["get_holder"])]
+SELECTIONS = [("default", [], ["get_holder", "other_op", "ping"]), ("all", ["--all-schemas"], None),
+              ("only", ["--only", "get_holder"], ["get_holder"]), ("exclude", ["--exclude", "other_op"], ["get_holder", "ping"]),
+              ("only-ping", ["--only", "ping"], ["ping"])]
 
 
 def twin_spec(groups, with_params):
@@ -287,7 +300,7 @@ def main(tier, seed, replay=None):
     res.oblige("extracted model (collect, seeds, reach) builds", exe is not None)
     rng = random.Random(seed * 733 + 7)
     cases = []
-    for pos in list(SCHEMA_POS) + ["discmap", "inline_twin"] + OP_POS:
+    for pos in list(SCHEMA_POS) + ["discmap", "inline_twin", "inline_twin_null", "inline_twin_null_mapval"] + OP_POS:
         for kind in KINDS:
             if not applicable(pos, kind):
                 continue
